@@ -51,6 +51,10 @@ func c01Env() *env.Env {
 	var np *int64
 	e.Define("nilptrs", []interface{}{np})
 	e.Define("pt", &struct{ A, B int64 }{1, 2})
+	e.Define("arr", [2]int64{1, 2})
+	e.Define("arrs", [][2]int64{{1, 2}})
+	e.Define("parr", &[2]int64{1, 2})
+	e.Define("earr", [0]string{})
 	e.Define("add", func(a, b int64) int64 { return a + b })
 	e.Define("cat", func(xs ...string) string { return strings.Join(xs, "") })
 	e.Define("boom", func() { panic("host function panics") })
@@ -173,6 +177,10 @@ func c01Degenerate() []string {
 		"a = nilptrs; for x in a { x }", "\"s\" * 9223372036854775807", "\"ab\" * 4611686018427387904", "go boom()", "go boomv(1)",
 		"go func() { boom() }()", "a = 1; make(a.b)", "add([1, 2]...)", "hfix3([1, 2, 3]...)", "cat([\"a\", \"b\"]...)", "add(list...)",
 		"x = nilptrs[0]; \"s\" + x",
+		// Go arrays bound by the host: every operator and bracket form on them
+		"arr + 1", "arr + [3]", "[3] + arr", "arr += 1", "arr[0:1]", "arr[0:1:2]", "arr[:]", "arr[1:]", "v = arr; v[0:1]", "arrs[0] + 1", "arrs[0][0:1]", "arrs[0] += arrs[0]", "arr + arr", "arr + nothing",
+		"arr + \"s\"", "\"s\" + arr", "arr * 2", "arr - arr", "-arr", "arr[0] = 1", "arr[2]", "arr.x", "arr()", "arr <- 1", "delete(arr, 0)", "for i, v in arr { }", "arr == arr", "arr in [arr]", "[arr...]", "add(arr...)",
+		"len(arr)", "arr ? 1 : 2", "arr ?? 1", "x, y = arr", "var x, y = arr", "[]int64{arr}", "{arr: 1}", "{1: 2}[arr]", "arr[arr]", "[1, 2][arr]", "parr + 1", "parr[0:1]", "*parr + 1", "(*parr)[0:1]", "earr + 1", "earr[0:0]",
 		// pointers that are nil, typed containers of pointers, types that reflect refuses to build
 		"a = make([]*int64, 1); *a[0]", "*nilptrs[0]", "p = nilptrs[0]; *p", "p = nilptrs[0]; *p = 1", "a = make([]*int64, 1); *a[0] = 1", "a = make([]*int64, 2); for x in a { *x }",
 		"a = make([]*int64, 1); a[0].x", "a = make([]*int64, 1); a[0][0]", "a = make([]*int64, 1); -a[0]", "a = make([]*int64, 1); a[0]()", "a = make(*int64); *a", "a = new(int64); **a",
@@ -294,7 +302,7 @@ func c01Main(seed uint64, n int, outDir string, self string) error {
 			}
 		}
 	}
-	envNames := []string{"n", "fl", "str", "t", "nothing", "list", "dict", "ints", "strs", "ch", "nilptrs", "pt", "add", "cat", "boom", "boomv", "mod", "probe", "hvar"}
+	envNames := []string{"n", "fl", "str", "t", "nothing", "list", "dict", "ints", "strs", "ch", "nilptrs", "pt", "arr", "arrs", "parr", "add", "cat", "boom", "boomv", "mod", "probe", "hvar"}
 	for len(progs) < n {
 		switch rnd.Intn(10) {
 		case 0, 1, 2, 3, 4:
